@@ -60,7 +60,8 @@ class ParsedHeaders(Mapping[bytes, Sequence[BaseHeader]]):
             # assign to hdr_name, hdr_value = ... instead.
             hdr_tuple = SMTP.header_source_parse(lines)
             try:
-                yield cls._registry(hdr_tuple[0], hdr_tuple[1])
+                # whitespace before the colon is not part of the name
+                yield cls._registry(hdr_tuple[0].strip(), hdr_tuple[1])
             except (ValueError, IndexError, TypeError, AttributeError):
                 # the email package cannot parse this value, skip the header
                 continue
